@@ -13,6 +13,9 @@
                                                             norm_model
    :129     evaluate_model = pdf_model / norm               evaluate_model
    base.py:67-72  __hdi_cost                                hdi_cost
+   base.py:28-66  interval(): Nelder-Mead over (c, w) on
+        __hdi_cost at the ends of [c - w/2, c + w/2]        interval_cost, interval_mass
+        (the optimiser itself is not modelled)
 *)
 From Coq Require Import Reals List.
 Import ListNotations.
@@ -54,3 +57,12 @@ Definition affine_theta (a b : R) (th : theta) : theta :=
 
 Definition hdi_cost (w Pa Pb Fa Fb f : R) : R :=
   (w * (Pa - Pb)) * (w * (Pa - Pb)) + (Fb - Fa - f) * (Fb - Fa - f).
+
+(* the quantity interval() minimises over (c, w), for an estimator with density P and
+   cumulative function F, and the probability the candidate interval holds *)
+Definition interval_mass (F : R -> R) (c w : R) : R := F (c + w / 2) - F (c - w / 2).
+
+Definition interval_cost (P F : R -> R) (wt f c w : R) : R :=
+  hdi_cost wt (P (c - w / 2)) (P (c + w / 2)) (F (c - w / 2)) (F (c + w / 2)) f.
+
+Definition nondecreasing (F : R -> R) : Prop := forall x y, x <= y -> F x <= F y.
